@@ -65,15 +65,23 @@ impl<T> Block<T> {
         unsafe { MaybeUninit::zeroed().assume_init() }
     }
 
-    // Gets the length of the next block, if it exists.
-    pub(crate) fn next_len(&self, guard: &Guard) -> usize {
+    // Whether or not any write to the next block, if it exists, has completed.
+    pub(crate) fn next_has_completed_writes(&self, guard: &Guard) -> bool {
         let tail = self.next.load(Ordering::Acquire, guard);
         if tail.is_null() {
-            return 0;
+            return false;
         }
 
         let tail_block = unsafe { tail.deref() };
-        tail_block.len()
+        tail_block.has_completed_writes()
+    }
+
+    /// Whether or not any write to this block has completed.
+    ///
+    /// Unlike `len`, this also sees completed writes that sit behind a slot whose write is still
+    /// in flight.
+    pub fn has_completed_writes(&self) -> bool {
+        self.read.load(Ordering::Acquire) != 0
     }
 
     /// Gets the current length of this block.
@@ -207,7 +215,7 @@ impl<T> AtomicBucket<T> {
         // We have to check the next block of our tail in case the current tail is simply a fresh
         // block that has not been written to yet.
         let tail_block = unsafe { tail.deref() };
-        tail_block.len() == 0 && tail_block.next_len(guard) == 0
+        !tail_block.has_completed_writes() && !tail_block.next_has_completed_writes(guard)
     }
 
     /// Pushes an element into the bucket.
@@ -663,7 +671,7 @@ mod tests {
 
         // Just making sure that `is_empty` holds as we go from
         // the first block, to the second block, to exercise the
-        // `Block::next_len` codepath.
+        // `Block::next_has_completed_writes` codepath.
         let mut i = 0;
         while i < BLOCK_SIZE * 2 {
             bucket.push(i);
